@@ -12,18 +12,18 @@ for id in "${ids[@]}"; do
   prop=${id%%-*}
   if [ -n "$(git -C /repo status --porcelain)" ]; then echo "/repo is not clean"; exit 2; fi
   git -C /repo apply "$d/patch.diff" || { echo "$id: patch does not apply"; continue; }
-  out=$(./check "$prop" quick 2>&1); rc=$?
+  out=$(./check "$prop" ${TIER:-quick} 2>&1); rc=$?
   git -C /repo checkout -- . ; git -C /repo clean -fdq
   line=$(echo "$out" | grep '^VIOLATION' | head -1)
   rp=$(echo "$line" | sed -n 's/.*replay=\([^ ]*\).*/\1/p')
   what=""; sig=""
   if [ -n "$rp" ] && [ -f "$rp" ]; then what=$(sed -n 's/^what: //p' "$rp" | head -1); sig=$(sed -n 's/^sig: //p' "$rp" | head -1); fi
-  python3 - "$d/meta.json" "$prop" "$rc" "$line" "$what" "$sig" <<'PY'
+  python3 - "$d/meta.json" "$prop" "$rc" "$line" "$what" "$sig" "${TIER:-quick}" <<'PY'
 import json, sys
-out, prop, rc, line, what, sig = sys.argv[1:]
+out, prop, rc, line, what, sig, tier = sys.argv[1:]
 try: meta = json.load(open(out))
 except Exception: meta = {}
-meta["detected_by"] = {"check": "./check %s quick" % prop, "exit": int(rc), "detected": rc == "1" and line.startswith("VIOLATION"),
+meta["detected_by" if tier == "quick" else "detected_by_thorough"] = {"check": "./check %s %s" % (prop, tier), "exit": int(rc), "detected": rc == "1" and line.startswith("VIOLATION"),
                        "with_failing_input": "no-failing-input-found" not in line, "signature": sig, "what": what}
 json.dump(meta, open(out, "w"), indent=1)
 PY
